@@ -332,6 +332,47 @@ def group_merged_sidecar(nsc: int, ae: str, ad: int, be: str, bd: int, ce: str, 
     return M.same_mapping(used.contents.loaded_dict, want)
 
 
+
+def _lencell(**vals):
+    for name, v in vals.items():
+        t = R.env_int("VP_" + name.upper())
+        if t is not None and len(v) != 2 * t:
+            return False
+    return True
+
+
+def group_two_files(ae: str, be: str, ce: str, ssuf: str, fe1: str, fe2: str, fsuf: str) -> bool:
+    """
+    pre: _emap(ae, 1) and _emap(be, 1) and _emap(ce, 1) and _emap(fe1, 1) and _emap(fe2, 1)
+    pre: _lencell(la=ae, lb=be, lf1=fe1, lf2=fe2)
+    pre: _one(ssuf) and _one(fsuf)
+    post: _
+    """
+    # two sidecars in the root, one in sub-1, and TWO data files in sub-1: each data file gets the merge of ITS OWN
+    # chain, whatever the other file (which may share the deepest sidecar but not the shallower ones) was given
+    objs, recs, dir_dict, by_path, f1, fp1 = _scene(3, [(ae, 0), (be, 0), (ce, 1)], ssuf, fe1, fsuf, 1)
+    fp2 = _pairs(fe2)
+    f2 = bids_stub.bare(BidsTabularFile, _path(1, "g_x.tsv"), fsuf, ".tsv", {k: v for k, v in fp2})
+    exp1 = M.chain(recs, fsuf, _DIRS[1], fp1)
+    exp2 = M.chain(recs, fsuf, _DIRS[1], fp2)
+    if exp1 is None or exp2 is None:
+        return True         # two applicable sidecars in one directory: outside the property
+    docs = {}
+    for i in range(3):
+        docs[objs[i].file_path] = {c: x for c, x in _contents(i)}
+    with bids_stub.json_files(docs):
+        g = bids_stub.FoundGroup(_ROOT, by_path, dir_dict, {f1.file_path: f1, f2.file_path: f2}, suffix="x")
+    for fobj, exp in ((f1, exp1), (f2, exp2)):
+        want = M.merge([_contents(i) for i in exp])
+        used = g.datafile_dict[fobj.file_path].sidecar
+        if used is None:
+            if want != []:
+                return False
+        elif not M.same_mapping(used.contents.loaded_dict, want):
+            return False
+    return True
+
+
 _T_PARSE = ["hed.tools.util.io_util.parse_bids_filename", "hed.tools.util.io_util._split_entity"]
 _T_APPL = ["hed.tools.bids.bids_sidecar_file.BidsSidecarFile.is_sidecar_for"]
 _T_WALK = ["hed.tools.bids.bids_file_group.BidsFileGroup.get_sidecars_from_path",
@@ -358,6 +399,15 @@ def _walk_bound(nsc, ndirs, m):
 
 
 HARNESSES = [
+    R.H("group_two_files", _T_GROUP,
+        quick=R.tier(cells=R.product_cells(R.int_cells("VP_LA", 0, 1), R.int_cells("VP_LB", 0, 1),
+                                           R.int_cells("VP_LF1", 0, 1), R.int_cells("VP_LF2", 0, 1)), timeout=300,
+                     bound="sidecars a, b in the root and c in sub-1, two data files in sub-1; every entity map has <= 1 "
+                           "entry with any 1-character key and value; any 1-character suffixes"),
+        what="after the real BidsFileGroup constructor each of the two data files carries the merge of its own chain "
+             "(the files may share their deepest sidecar and differ in the shallower ones)",
+        oracle="models/bids_ref.py chain + merge per file", stubs=[_S_BARE, _S_DIRS, _S_JSON, _S_FOUND],
+        outside="more files / deeper trees / entity maps with 2 entries (decided for one file by group_merged_sidecar)"),
     R.H("parse_total", _T_PARSE,
         quick=R.tier(cells=R.str_cells(4, split1_from=3, nclass=len(_PARSE_CLASSES) + 1), env={"VP_N": 4}, timeout=300,
                      bound="every string s over {a,B,-,_,.,space,/} with len(s) <= 4"),
